@@ -141,6 +141,27 @@ def hist_relr(tab, qs):
     return {'answers': ans, 'cached': tab._cached_relocations is not None}
 
 
+def ilwalk_relr(tab):
+    """one walk of iter_relocations() on a fresh table object with ordinary use of the file's stream between two advances
+    of the suspended generator (a read elsewhere in the file, a count query on the same table): the property does not let
+    the expansion depend on where the shared stream was left, so this must be the plain walk's answer (a seeded
+    "seek once, then read sequentially" rewrite was missed while every walk was drained in one go)"""
+    stream = tab._elffile.stream if hasattr(tab, '_elffile') else tab.stream
+    out = []
+    for k, r in enumerate(tab.iter_relocations()):
+        out.append(r['r_offset'])
+        if len(out) > 70000:
+            break
+        stream.seek((7 * k) % 48)
+        stream.read(3)
+        if k % 3 == 1:
+            try:
+                tab.num_relocations()
+            except Exception:       # noqa: BLE001
+                pass
+    return out
+
+
 def py_index(xs, n):
     return {'ok': xs[n]} if -len(xs) <= n < len(xs) else {'err': 'indexError'}
 
@@ -385,6 +406,7 @@ def eval_relr(ctx, reqs):
         impl = run_impl(impl_fn)
         qs = relr_queries(data)
         himpl = run_impl(lambda data=data, i=i, qs=qs: hist_relr(open_elf(data).get_section(i), qs))
+        ilimpl = run_impl(lambda data=data, i=i: ilwalk_relr(open_elf(data).get_section(i)))
         runs.append({'p': 'C08', 'k': 'run_relr', 'hex': hx(data), 'le': le, 'cls': cls, 'machine': req['machine'],
                      'offset': img.offsets[i], 'size': len(table), 'entsize': entsize, 'hist': qs})
         wf = enc['wf'] and req['variant'] == 'ok'
@@ -400,7 +422,7 @@ def eval_relr(ctx, reqs):
             fops.reverse()
         fruns.append({'p': 'C08', 'k': 'file_api', 'hex': hx(data), 'ops': fops})
         out.append({'impl': impl, 'expect': expect, 'wf': wf, 'fops': fops, 'fimpl': impl_file_ops(data, fops),
-                    'himpl': himpl, 'hexpect': hexpect, 'hqs': qs})
+                    'himpl': himpl, 'hexpect': hexpect, 'hqs': qs, 'ilimpl': ilimpl})
     models = ask_safe(ctx, runs)
     for o, m in zip(out, models):
         if 'fatal' in m:
@@ -850,6 +872,8 @@ def run_stream(ctx, stream, n):
                 ctx.out.count('apply:lookup:by-name==by-sh_info')
             if not o['wf']:
                 ctx.out.count(stream + ':outside-domain')
+            if 'ilimpl' in o:
+                ctx.out.count('relr:interleaved-walk:' + ('ok' if 'ok' in o['ilimpl'] else o['ilimpl']['err']))
             if 'himpl' in o:
                 ctx.out.count('relr:cache-history:queries', len(o['hqs']))
                 ctx.out.count('relr:cache-history:' + ('published' if (o['himpl'].get('ok') or {}).get('cached') else 'not-published'))
@@ -862,6 +886,11 @@ def run_stream(ctx, stream, n):
                                   lookup=o.get('lookup'))
             elif o['wf'] and 'himpl' in o and (o['himpl'].get('ok') or {}).get('answers') != o['hexpect']:
                 ctx.out.violation('property', stream, case, expect=o['hexpect'], got=o['himpl'], model=o.get('hmodel'), queries=o['hqs'])
+            elif 'ilimpl' in o and 'ok' in o['impl'] and o['ilimpl'] != o['impl']['ok'].get('offsets'):
+                # the interleaved walk must answer what the plain walk on a fresh object answers (itself compared with
+                # the description and the model above)
+                ctx.out.violation('property', stream, case, expect=o['impl']['ok'].get('offsets'), got=o['ilimpl'], model=o['model'],
+                                  note='interleaved walk')
             elif o['impl'] != o['model']:
                 ctx.out.violation('correspondence', stream, case, got=o['impl'], model=o['model'])
             elif 'himpl' in o and o['himpl'] != o['hmodel']:
@@ -887,6 +916,8 @@ def replay(ctx, payload):
     hist_prop = bool(o['wf'] and 'himpl' in o and (o['himpl'].get('ok') or {}).get('answers') != o['hexpect'])
     fails_prop = bool(o['wf'] and not (prop_holds(stream, req, o) and file_prop_holds(stream, req, o))) or hist_prop
     fails_corr = o['impl'] != o['model'] or o.get('fimpl') != o.get('fmodel') or o.get('himpl') != o.get('hmodel')
+    if 'ilimpl' in o and 'ok' in o['impl'] and o['ilimpl'] != o['impl']['ok'].get('offsets'):
+        hist_prop = fails_prop = True
     return {'stream': stream, 'case': v['case'], 'impl': o['impl'], 'expect': o['expect'], 'model': o['model'],
             'file_ops': o.get('fops'), 'file_impl': o.get('fimpl'), 'file_model': o.get('fmodel'), 'lookup': o.get('lookup'),
             'wf': o['wf'], 'fails': fails_prop or fails_corr, 'kind': 'property' if fails_prop else ('correspondence' if fails_corr else None)}
